@@ -649,9 +649,19 @@ def backoff_iter(start, stop, count=None, factor=2.0, jitter=False):
     if stop < start:
         raise ValueError('expected stop >= start, not %r' % stop)
     if count is None:
-        denom = start if start else 1
-        count = 1 + math.ceil(math.log(stop/denom, factor))
-        count = count if start else count + 1
+        # The default is the number of values it takes to arrive at
+        # stop, found by walking the same curve as the loop below. (A
+        # rounded math.log() is one short when stop is barely above
+        # start * factor**n, overflows for a subnormal start, and goes
+        # negative for a stop below 1 after a start of 0.)
+        count, cur = 1, start
+        while cur < stop:
+            nxt = cur * factor if cur else 1.0
+            if nxt <= cur:
+                raise ValueError('cannot get from start (%r) to stop (%r)'
+                                 ' with factor %r, count is required'
+                                 % (start, stop, factor))
+            count, cur = count + 1, nxt
     if count != 'repeat' and count < 0:
         raise ValueError('count must be positive or "repeat", not %r' % count)
     if jitter:
